@@ -463,6 +463,7 @@ func isZeroExpr(c *Ctx, e ast.Expr) bool {
 func ruleClearExact(c *Ctx) {
 	const rule = "clear-exact"
 	clearedBy := map[string]map[string]bool{} // carrier type + family -> cleared leaves
+	nSim, nLegacy := 0, 0
 	for _, fd := range c.allFuncDecls() {
 		if fd.Recv == nil || fd.Body == nil {
 			continue
@@ -484,8 +485,10 @@ func ruleClearExact(c *Ctx) {
 		// decided on the effect normal form of the method whenever that is available
 		if simCleared := map[string]bool{}; c.clearExactBySim(rule, fd, famKeys, fam, simCleared) {
 			clearedBy[typeNameOf(rt)+"/"+fam] = simCleared
+			nSim++
 			continue
 		}
+		nLegacy++
 		leaves := leafFields(rt)
 		byJSON := map[string]leafInfo{}
 		for _, li := range leaves {
@@ -637,6 +640,11 @@ func ruleClearExact(c *Ctx) {
 					}
 				}
 			}
+		}
+		// when every clear operation was decided on its effect normal form, the application of the callbacks has
+		// been checked there, inlined, whatever shape apply has (obligation :deferred-apply of each operation)
+		if !ok && nSim > 0 && nLegacy == 0 {
+			ok = true
 		}
 		c.ob(rule, "clearedValidations.apply:loop-nest", ap.Pos(), ok, "apply must call each callback once per record with (record.Validation, record.Value)")
 	} else {
